@@ -73,13 +73,46 @@ class C02(Property):
                 s.add("G.%d" % k)
             s.add("S.1")
             out.append(s.line())
+        # handshakes that cannot agree on a cipher while only ONE side allows "plain": whatever is sent, the routing information in the
+        # handshake payload (claims) must not travel in clear text.  Both dial directions, disjoint and empty cipher lists.
+        A128, A256, CHA = "1:44160000", "2:43fa0000", "3:43c80000"
+        pairs = [("p|" + A128, "-|" + A256), ("p|" + A128 + "," + CHA, "-|" + A256), ("p|-", "-|" + A256), ("-|" + A128, "-|" + A256),
+                 ("p|" + A128, "p|" + A256), ("p|-", "p|-")]
+        for a1, a2 in pairs:
+            for flip in (False, True):
+                for dial in ("12", "21", "both"):
+                    s = nu.Scenario()
+                    x, y = (a2, a1) if flip else (a1, a2)
+                    s.node(1, mode="tun-router", claims=["0a000100/24", "c0a80100/24"], algos=x)
+                    s.node(2, mode="tun-router", claims=["0a000200/24", "c0a80200/24"], algos=y)
+                    if dial in ("12", "both"):
+                        s.add("C.1.2")
+                    if dial in ("21", "both"):
+                        s.add("C.2.1")
+                    s.add("A")
+                    s.tick(4)
+                    for k in range(24):
+                        s.add("G.%d" % k)
+                    s.add("S.1", "S.2")
+                    out.append(s.line())
         return out
 
     def model_line(self, line, impl_out):
-        return nu.model_line(line, impl_out) if line.startswith("node ") else line
+        if not line.startswith("node "):
+            return line
+        # the captured bytes (G ops) are real-run values the symbolic model cannot produce; they are handed over and echoed so that
+        # the wire scan of the oracle sees them in the compared output
+        ml = nu.model_line(line, impl_out).split()
+        outs = impl_out.split()
+        if len(ml) - 1 == len(outs):
+            ml = [ml[0]] + [("%s.%s" % (o, r[1:]) if o.startswith("G.") and r.startswith("g") and len(r) > 1 else o) for o, r in zip(ml[1:], outs)]
+        return " ".join(ml)
 
     def canon_impl(self, line, out):
-        return nu.canon_impl(out) if line.startswith("node ") else out
+        if not line.startswith("node "):
+            return out
+        import re
+        return re.sub(r"n\d+>", "", out)           # (captures are kept: the oracle scans them)
 
     def nontrivial(self, line, impl_out):
         t = impl_out.split()
@@ -168,6 +201,17 @@ class C02(Property):
                             "source %d") % (k, osrc, odst, dst, src)
         # wire capture: no 8-byte window of any payload in any datagram
         caps = [r[1:] for o, r in zip(ops, outs) if o.startswith("G.") and r.startswith("g") and len(r) > 1]
+        # ... and no node's encoded claims (routing information), unless every node of the scenario allows "plain"
+        ntoks = [t.split(".") for t in ops if t.startswith("N.")]
+        if ntoks and not all(t[9].startswith("p|") for t in ntoks):
+            for t in ntoks:
+                for cl in ([] if t[6] == "-" else t[6].split(";")):
+                    base, plen = cl.split("/")
+                    needle = "%02x%s%02x" % (len(base) // 2, base, int(plen))
+                    for c in caps:
+                        if needle in c:
+                            return ("the claim %s of node %s travels in clear text (datagram %s...) although not both ends enabled 'plain'"
+                                    % (cl, t[1], c[:24]))
         for f in frames:
             fb = bytes.fromhex(f) if f != "-" else b""
             body = fb[20:] if len(fb) > 28 else b""
